@@ -350,6 +350,59 @@ def run(tier):
             rid += 1
             recs.append({"id": rid, "g0": drive.gjson(p0), "g1": drive.gjson(p1), "sigma": [[perm[j], j] for j in range(5)],
                          "mirror": mirror, "file": f"distorted-4-coordinate:{('see-saw', 'umbrella', 'random')[kind_d]}", "perm": perm})
+    # six-coordinate centres that are NOT octahedra (trigonal prism, capped shapes): whatever is perceived must not depend
+    # on the order of the atoms, and the mirror image must give the enantiomer
+    n6 = 6 if tier == "quick" else 40
+    made6 = 0
+    attempts = 0
+    while made6 < n6 and attempts < 600:
+        attempts += 1
+        if attempts % 2:       # trigonal prism with a random twist of up to 15 degrees
+            tw = math.radians(rnd.uniform(0, 15))
+            h = 0.66
+            dirs = [np.array([math.cos(a), math.sin(a), h]) for a in (0.0, 2.094, 4.189)] + \
+                   [np.array([math.cos(a + tw), math.sin(a + tw), -h]) for a in (0.0, 2.094, 4.189)]
+        else:                  # random six directions
+            dirs = [np.array([rnd.gauss(0, 1) for _ in range(3)]) for _ in range(6)]
+        dirs = [v / np.linalg.norm(v) + np.array([rnd.uniform(-0.03, 0.03) for _ in range(3)]) for v in dirs]
+        dirs = [v / np.linalg.norm(v) for v in dirs]
+        if any(float(np.dot(dirs[i], dirs[j])) > math.cos(math.radians(55)) for i in range(6) for j in range(i)):
+            continue
+        centre_el = rnd.choice([42, 74, 26])
+        lig = rnd.sample([1, 9, 17, 35, 53, 8, 7], 6)
+        pts = np.array([np.zeros(3)] + [d * (r_cov2[centre_el] + r_cov2[e]) for d, e in zip(dirs, lig)])
+        els = [centre_el] + lig
+        if not geom.general_position(els, pts)[0]:
+            continue
+        try:
+            g0 = SMG.from_geometry(Geometry(els, pts))
+        except Exception:
+            continue          # an arrangement the perception refuses: not judged
+        p0, _ = project(g0, drive.IDM)
+        if len(p0["bonds"]) != 6:
+            continue
+        made6 += 1
+        for k in range(6 if tier == "quick" else 12):
+            mirror = (k % 3 == 2)
+            perm = list(range(7))
+            rnd.shuffle(perm)
+            c1 = geom.rigid(pts, rnd)
+            if mirror:
+                c1 = geom.reflect(c1)
+            c1 = c1[perm]
+            e1 = [els[i] for i in perm]
+            if not geom.general_position(e1, c1)[0]:
+                continue
+            try:
+                g1 = SMG.from_geometry(Geometry(e1, c1))
+            except Exception as e:
+                rep.violation(f"C07|from_geometry|distorted-6-coordinate|raises-after-transform:{type(e).__name__}",
+                              "from_geometry raised on a permuted copy of a geometry it accepted", {"elements": els, "coords": pts.tolist()})
+                continue
+            p1, _ = project(g1, drive.IDM)
+            rid += 1
+            recs.append({"id": rid, "g0": drive.gjson(p0), "g1": drive.gjson(p1), "sigma": [[perm[j], j] for j in range(7)],
+                         "mirror": mirror, "file": f"distorted-6-coordinate:{('random', 'prism')[attempts % 2]}", "perm": perm})
     # reactions: reactant / product / TS moved independently
     triples = [("tests__unit__data__methylamine_phosgenation_trans_r.xyz", "tests__unit__data__methylamine_phosgenation_trans_p.xyz",
                 "tests__unit__data__methylamine_phosgenation_trans_ts.xyz"),
